@@ -101,6 +101,28 @@ func UntarDirectory(r io.Reader, destDir string) error {
 		return fmt.Errorf("failed to create destination directory: %w", err)
 	}
 
+	// Create gzip reader
+	gzr, err := gzip.NewReader(r)
+	if err != nil {
+		return fmt.Errorf("failed to create gzip reader: %w", err)
+	}
+	defer gzr.Close()
+
+	return ExtractTar(gzr, destDir)
+}
+
+// ExtractTar extracts an uncompressed tar archive from a reader to a destination directory.
+// It creates the destination directory if it doesn't exist and applies the same
+// path, symlink and hard link validation as UntarDirectory.
+func ExtractTar(r io.Reader, destDir string) error {
+	// Clean destination directory
+	destDir = filepath.Clean(destDir)
+
+	// Create destination directory
+	if err := os.MkdirAll(destDir, 0755); err != nil {
+		return fmt.Errorf("failed to create destination directory: %w", err)
+	}
+
 	// Resolve the destination itself: entries are located relative to its
 	// physical path so that symbolic links created by earlier entries (or
 	// already present) cannot redirect later entries outside of it.
@@ -109,15 +131,8 @@ func UntarDirectory(r io.Reader, destDir string) error {
 		return fmt.Errorf("failed to resolve destination directory: %w", err)
 	}
 
-	// Create gzip reader
-	gzr, err := gzip.NewReader(r)
-	if err != nil {
-		return fmt.Errorf("failed to create gzip reader: %w", err)
-	}
-	defer gzr.Close()
-
 	// Create tar reader
-	tr := tar.NewReader(gzr)
+	tr := tar.NewReader(r)
 
 	for {
 		header, err := tr.Next()
